@@ -107,6 +107,10 @@ func (v DenseInt16Vector) ReverseOrder() {
   }
 }
 func (v DenseInt16Vector) Slice(i, j int) Vector {
+  // do not expose elements beyond the end of a sub-slice
+  if j > len(v) {
+    panic("index out of bounds")
+  }
   return v[i:j]
 }
 func (v DenseInt16Vector) Swap(i, j int) {
@@ -160,6 +164,9 @@ func (v DenseInt16Vector) ConstAt(i int) ConstScalar {
   return Int16{&v[i]}
 }
 func (v DenseInt16Vector) ConstSlice(i, j int) ConstVector {
+  if j > len(v) {
+    panic("index out of bounds")
+  }
   return v[i:j]
 }
 func (v DenseInt16Vector) AsConstMatrix(n, m int) ConstMatrix {
